@@ -15,7 +15,7 @@ use rustrtc::transports::dtls::{Certificate, fingerprint, generate_certificate};
 use std::collections::VecDeque;
 
 #[derive(Clone, Debug, PartialEq)]
-pub enum Act { Drop, Dup, Swap, FlipBody(u16), CertOther, CertEmpty, CertGarbage, Resign, CertOtherResign, FlipSig, FlipKey, FlipRandom, StripExt(u16), FlipCipher, Fragment(u16), FragDupMid(u16), FragReorder(u16), SeqMinus1, Impostor, ImpostorChain, ExtraCert, RefragTailLost(u16), RefragEvery3(u16), PreInject(u8), ForgeFinishedBad, InsertCert, RefragOverlap(u16), InsertHs(u8), PreInjectHs(u8), CloseClient, CloseServer }
+pub enum Act { Drop, Dup, Swap, FlipBody(u16), CertOther, CertEmpty, CertGarbage, Resign, CertOtherResign, FlipSig, FlipKey, FlipRandom, StripExt(u16), FlipCipher, Fragment(u16), FragDupMid(u16), FragReorder(u16), SeqMinus1, Impostor, ImpostorChain, ExtraCert, RefragTailLost(u16), RefragEvery3(u16), PreInject(u8), ForgeFinishedBad, InsertCert, RefragOverlap(u16), InsertHs(u8), PreInjectHs(u8), CloseClient, CloseServer, AtkSke, InsertHsBefore(u8), RepeatSame }
 
 #[derive(Clone, Debug, PartialEq)]
 pub struct Rule { pub from_client: bool, pub typ: u8, pub act: Act }
@@ -34,7 +34,8 @@ impl Script {
             Act::SeqMinus1 => "seqminus1".into(), Act::Impostor => "impostor".into(), Act::ImpostorChain => "impostorchain".into(),
             Act::ExtraCert => "extracert".into(), Act::RefragTailLost(n) => format!("refragtaillost{n}"), Act::RefragEvery3(n) => format!("refragevery{n}"),
             Act::PreInject(ct) => format!("preinject{ct}"), Act::ForgeFinishedBad => "forgefinishedbad".into(), Act::InsertCert => "insertcert".into(), Act::InsertHs(t) => format!("inserths{t}"), Act::PreInjectHs(t) => format!("prehs{t}"),
-            Act::CloseClient => "closeclient".into(), Act::CloseServer => "closeserver".into(), Act::RefragOverlap(n) => format!("refragoverlap{n}") })).collect();
+            Act::CloseClient => "closeclient".into(), Act::CloseServer => "closeserver".into(), Act::AtkSke => "atkske".into(),
+            Act::InsertHsBefore(t) => format!("insertbefore{t}"), Act::RepeatSame => "repeatsame".into(), Act::RefragOverlap(n) => format!("refragoverlap{n}") })).collect();
         format!("ce={} se={} {}", self.ce, self.se, if rs.is_empty() { "-".into() } else { rs.join(";") })
     }
     pub fn parse(s: &str) -> Script {
@@ -48,10 +49,10 @@ impl Script {
             let num = |pre: &str| a[pre.len()..].parse::<u16>().unwrap();
             let act = match a { "drop" => Act::Drop, "dup" => Act::Dup, "swap" => Act::Swap, "other" => Act::CertOther, "empty" => Act::CertEmpty,
                 "garbage" => Act::CertGarbage, "resign" => Act::Resign, "otherresign" => Act::CertOtherResign, "flipsig" => Act::FlipSig,
-                "flipkey" => Act::FlipKey, "fliprandom" => Act::FlipRandom, "flipcipher" => Act::FlipCipher, "seqminus1" => Act::SeqMinus1, "forgefinishedbad" => Act::ForgeFinishedBad, "insertcert" => Act::InsertCert, "closeclient" => Act::CloseClient, "closeserver" => Act::CloseServer, "impostor" => Act::Impostor, "impostorchain" => Act::ImpostorChain, "extracert" => Act::ExtraCert,
+                "flipkey" => Act::FlipKey, "fliprandom" => Act::FlipRandom, "flipcipher" => Act::FlipCipher, "seqminus1" => Act::SeqMinus1, "forgefinishedbad" => Act::ForgeFinishedBad, "insertcert" => Act::InsertCert, "closeclient" => Act::CloseClient, "closeserver" => Act::CloseServer, "atkske" => Act::AtkSke, "repeatsame" => Act::RepeatSame, "impostor" => Act::Impostor, "impostorchain" => Act::ImpostorChain, "extracert" => Act::ExtraCert,
                 x if x.starts_with("flipbody") => Act::FlipBody(num("flipbody")), x if x.starts_with("strip") => Act::StripExt(num("strip")),
                 x if x.starts_with("preinject") => Act::PreInject(num("preinject") as u8),
-                x if x.starts_with("refragtaillost") => Act::RefragTailLost(num("refragtaillost")), x if x.starts_with("refragevery") => Act::RefragEvery3(num("refragevery")), x if x.starts_with("refragoverlap") => Act::RefragOverlap(num("refragoverlap")), x if x.starts_with("inserths") => Act::InsertHs(num("inserths") as u8), x if x.starts_with("prehs") => Act::PreInjectHs(num("prehs") as u8),
+                x if x.starts_with("refragtaillost") => Act::RefragTailLost(num("refragtaillost")), x if x.starts_with("refragevery") => Act::RefragEvery3(num("refragevery")), x if x.starts_with("refragoverlap") => Act::RefragOverlap(num("refragoverlap")), x if x.starts_with("inserths") => Act::InsertHs(num("inserths") as u8), x if x.starts_with("insertbefore") => Act::InsertHsBefore(num("insertbefore") as u8), x if x.starts_with("prehs") => Act::PreInjectHs(num("prehs") as u8),
                 x if x.starts_with("fragdup") => Act::FragDupMid(num("fragdup")), x if x.starts_with("fragreorder") => Act::FragReorder(num("fragreorder")),
                 x if x.starts_with("frag") => Act::Fragment(num("frag")), x => panic!("bad act {x}") };
             rules.push(Rule { from_client: p[0] == "c>s", typ: p[1].parse().unwrap(), act });
@@ -141,7 +142,7 @@ fn apply(act: &Act, dg: &[u8], atk: &Attacker, randoms: &(Vec<u8>, Vec<u8>), occ
                 b.truncate(i); b.extend_from_slice(&(out.len() as u16).to_be_bytes()); b.extend_from_slice(&out);
             } })],
         Act::FlipCipher => { let mut d = dg.to_vec(); let n = d.len(); d[n - 20] ^= 1; vec![d] }
-        Act::Impostor | Act::ImpostorChain | Act::ExtraCert | Act::ForgeFinishedBad | Act::InsertHs(_) | Act::PreInjectHs(_) | Act::CloseClient | Act::CloseServer => vec![dg.to_vec()], // handled by the proxy loop
+        Act::Impostor | Act::ImpostorChain | Act::ExtraCert | Act::ForgeFinishedBad | Act::InsertHs(_) | Act::PreInjectHs(_) | Act::CloseClient | Act::CloseServer | Act::AtkSke | Act::InsertHsBefore(_) | Act::RepeatSame => vec![dg.to_vec()], // handled by the proxy loop
         Act::InsertCert => {
             // a second Certificate message (the attacker's certificate), in sequence right after the genuine one;
             // the proxy renumbers the rest of the flight (see `seq_shift`)
@@ -275,6 +276,7 @@ pub async fn run_script_ticks(sc: &Script, max_ticks: u32) -> Option<Outcome> {
     let mut occ = vec![0usize; sc.rules.len()];
     let (mut forged, mut seq_shift, mut inserted_cert) = (false, 0u16, false);
     let mut pending_shift = 0u16;
+    let (mut second_cert, mut replaced_ske, mut foreign_cert_first) = (false, false, false);
     let mut done2 = vec![false; sc.rules.len()];
     let mut held: (Option<Vec<u8>>, Option<Vec<u8>>) = (None, None);
     let mut randoms = (vec![], vec![]);
@@ -358,6 +360,7 @@ pub async fn run_script_ticks(sc: &Script, max_ticks: u32) -> Option<Outcome> {
             2 => seen.get(&2).map(|b| { let mut b = b.clone(); if b.len() > 12 { b[10] ^= 1; } b }),
             t => seen.get(&t).cloned() } };
         let (mut pre, mut post): (Vec<Vec<u8>>, Vec<Vec<u8>>) = (vec![], vec![]);
+        let mut shift_now = 0u16;
         for (i, r) in sc.rules.iter().enumerate() {
             if r.from_client != from_client || r.typ != k || done2[i] { continue; }
             match r.act {
@@ -377,16 +380,47 @@ pub async fn run_script_ticks(sc: &Script, max_ticks: u32) -> Option<Outcome> {
                         let own_seq = parse_records(&outs[0]).first().and_then(|r| parse_hs(&r.body).first().map(|m| m.seq)).unwrap_or(next_seq_of_target);
                         post.push(record_bytes(22, (rec.0, rec.1), 0, rec.2 + 60, &hs_bytes(t, b.len() as u32, own_seq + 1 + seq_shift, 0, &b)));
                         if t == 12 { inserted_ske = true; }
+                        if t == 11 { second_cert = true; }
                         pending_shift += 1;
                     }
+                }
+                // the ServerKeyExchange is the attacker's own (own share, own signature) INSTEAD of the genuine one; the proxy
+                // then plays the server to the end (see below)
+                Act::AtkSke if !from_client && k == 12 => {
+                    done2[i] = true;
+                    if let (Some(b), Some(r0)) = (body_for(12, &seen), parse_records(&dg).into_iter().next()) {
+                        let sq = parse_hs(&r0.body).first().map(|m| m.seq).unwrap_or(2);
+                        outs = vec![record_bytes(22, (r0.vmaj, r0.vmin), 0, r0.seq, &hs_bytes(12, b.len() as u32, sq, 0, &b))];
+                        inserted_ske = true; replaced_ske = true;
+                    }
+                }
+                // a forged message of type t takes this message's place in the sequence; this one and the rest move up by one
+                Act::InsertHsBefore(t) if !from_client => {
+                    done2[i] = true;
+                    if let (Some(b), Some(r0)) = (body_for(t, &seen), parse_records(&dg).into_iter().next()) {
+                        let sq = parse_hs(&r0.body).first().map(|m| m.seq).unwrap_or(next_seq_of_target);
+                        pre.push(record_bytes(22, (r0.vmaj, r0.vmin), 0, r0.seq + 80, &hs_bytes(t, b.len() as u32, sq + seq_shift, 0, &b)));
+                        if t == 11 { second_cert = true; if exp_c.is_some() { foreign_cert_first = true; } }
+                        shift_now += 1;
+                    }
+                }
+                // the same message again (same body) at the next message_seq
+                Act::RepeatSame if !from_client => {
+                    done2[i] = true;
+                    if let Some(r0) = parse_records(&dg).into_iter().next() { if let Some(m) = parse_hs(&r0.body).into_iter().next() {
+                        post.push(record_bytes(22, (r0.vmaj, r0.vmin), 0, r0.seq + 60, &hs_bytes(m.typ, m.total, m.seq + 1 + seq_shift, 0, &m.body)));
+                        if m.typ == 11 { second_cert = true; }
+                        pending_shift += 1;
+                    } }
                 }
                 Act::CloseClient => { done2[i] = true; for x in c.close().await { q_cs.push_back(x); } }
                 Act::CloseServer => { done2[i] = true; for x in s.close().await { q_sc.push_back(x); } }
                 _ => {}
             }
         }
+        seq_shift += shift_now;
         // after an inserted message the proxy renumbers the remaining clear-text messages of the server's flight
-        if !from_client && seq_shift > 0 && (k == 11 || k == 12 || k == 14) {
+        if !from_client && seq_shift > 0 && (k == 2 || k == 11 || k == 12 || k == 14) {
             outs = outs.iter().map(|d| {
                 let rs = parse_records(d);
                 match rs.first() {
@@ -395,7 +429,7 @@ pub async fn run_script_ticks(sc: &Script, max_ticks: u32) -> Option<Outcome> {
                         None => d.clone() },
                     _ => d.clone() } }).collect();
         }
-        if !from_client && k == 11 && sc.rules.iter().any(|r| r.act == Act::InsertCert) { seq_shift = 1; inserted_cert = true; }
+        if !from_client && k == 11 && sc.rules.iter().any(|r| r.act == Act::InsertCert) && !inserted_cert { seq_shift += 1; inserted_cert = true; second_cert = true; }
         for (n, x) in pre.into_iter().enumerate() { outs.insert(n, x); }
         outs.extend(post);
         seq_shift += pending_shift; pending_shift = 0;
@@ -508,8 +542,13 @@ pub async fn run_script_ticks(sc: &Script, max_ticks: u32) -> Option<Outcome> {
     if c.ep.letter() == 'C' { if let Some(e) = &c.expected { if let Some(b) = denoted_bytes(e) {
         let canon = b.iter().map(|x| format!("{x:02X}")).collect::<Vec<_>>().join(":");
         if !c.key_share_signed_by.contains(&canon) {
+            // the certificate whose key verified the peer's handshake signature does not hash to the expected fingerprint
+            if second_cert { fails.push(("auth:connected-with-unverified-certificate:second-certificate-message".to_string(), text.clone())); }
             fails.push((format!("role:client:connected-with-a-key-share-the-pinned-certificate-did-not-sign{}", if mitm_done { ":attacker-completed-the-handshake" } else { "" }), text.clone())); }
     } } }
+    if foreign_cert_first && sc.rules.len() == 1 && c.ep.letter() != 'F' {
+        fails.push((format!("role:client:non-matching-certificate-in-sequence-not-rejected:ended-{}", c.ep.letter()), text.clone())); }
+    let _ = replaced_ske;
     if inserted_ske && sc.rules.len() == 1 && c.ep.letter() != 'F' {
         fails.push((format!("role:client:unverified-key-exchange-in-sequence-not-rejected:ended-{}", c.ep.letter()), text.clone())); }
     if bad_cert_to_server && sc.rules.len() == 1 && s.ep.letter() != 'F' {
@@ -566,6 +605,14 @@ pub fn scripts(thorough: bool, rng: &mut Rng) -> Vec<Script> {
         // a second in-sequence ServerKeyExchange (the attacker's own share, signed by the attacker) after the genuine,
         // verified one; a second ServerHello (other random) after the Certificate / after the verified key exchange
         vec![r(false, 12, Act::InsertHs(12))], vec![r(false, 12, Act::InsertHs(2))], vec![r(false, 11, Act::InsertHs(2))],
+        // "repeat a handshake message type at the next message_seq" in general: a different body after / before the genuine
+        // one, and the genuine one twice — Certificate, ServerKeyExchange, ServerHello
+        vec![r(false, 11, Act::InsertHsBefore(11))], vec![r(false, 12, Act::InsertHsBefore(12))], vec![r(false, 2, Act::InsertHsBefore(2))],
+        vec![r(false, 11, Act::RepeatSame)], vec![r(false, 12, Act::RepeatSame)], vec![r(false, 2, Act::RepeatSame)],
+        // two Certificate messages and an attacker that owns the rest of the flight: genuine then foreign / foreign then
+        // genuine / genuine twice, each followed by the attacker's own ServerKeyExchange; the attacker completes the handshake
+        vec![r(false, 11, Act::InsertCert), r(false, 12, Act::AtkSke)], vec![r(false, 11, Act::InsertHsBefore(11)), r(false, 12, Act::AtkSke)],
+        vec![r(false, 11, Act::RepeatSame), r(false, 12, Act::AtkSke)], vec![r(false, 12, Act::AtkSke)],
         // every message type offered to the role that never receives it, at the expected message_seq
         vec![r(true, 1, Act::PreInjectHs(3))], vec![r(true, 1, Act::PreInjectHs(14))],
         vec![r(true, 16, Act::PreInjectHs(3))], vec![r(true, 16, Act::PreInjectHs(14))], vec![r(true, 16, Act::PreInjectHs(2))],
